@@ -40,6 +40,7 @@ func runC13(r *an.Run) {
 	c01SplitPatch(r)
 	relabel(r, "R9-minus-plus-split", "R7-a-space-prefixed-line-is-context")
 	positionsReadBeforeStrip(r, "R8-marker-or-context-first-line-same-start")
+	eachChangeOnItsOwn(r, "R9-each-change-is-parsed-and-compiled-on-its-own")
 }
 
 func c13CommentsSkipped(r *an.Run) {
